@@ -23,9 +23,7 @@ def mkParams (cb dflt : Nat) (pend : List (Nat × Nat × Nat)) (progs : List (Bo
   { p2w := fun p => if p == 0 then false else (lookupIdx progs p (false, 0)).1
     owner := fun p => if p == 0 then 0 else (lookupIdx progs p (false, 0)).2
     cbPending := cb
-    pending := fun h => match pend.find? (fun t => t.1 ≤ h && h < t.2.1) with
-      | some t => t.2.2
-      | none => dflt }
+    pending := pendingOfTable pend dflt }
 
 def parseTable3 (s : String) : Option (List (Nat × Nat × Nat)) :=
   if s == "-" then some [] else
